@@ -181,3 +181,43 @@ Proof.
   intros Hne Hf H2. unfold parse_res_list. rewrite split_join by assumption. clear Hne Hf.
   induction H2 as [|s k r ks Hs _ IH]; cbn [parse_all]; [reflexivity|]. rewrite Hs, IH. reflexivity.
 Qed.
+
+(* ------------------------------------------------------------------ the flags of a group on a bridged atom (C11) *)
+Lemma init_group_lowers {E} o (g : grp E) : g_titratable (init_group o g) = true -> g_titratable g = true.
+Proof. destruct o as [l|]; cbn [init_group]; [destruct (negb (key_mem (g_key g) l)); cbn; [discriminate | auto] | auto]. Qed.
+Lemma flag_step_bridge_monotone {E} (st : flag_state E) o : fst st = true -> fst (flag_step st o) = true.
+Proof. destruct st as [b g]; cbn [fst]; intros ->; destruct o; reflexivity. Qed.
+Lemma flag_step_keeps_untitrated {E} (st : flag_state E) o :
+  fst st = true -> g_titratable (snd st) = false -> g_titratable (snd (flag_step st o)) = false.
+Proof.
+  destruct st as [b g]; cbn [fst snd]; intros -> Hg; destruct o as [mps|l| |]; cbn [flag_step snd g_titratable]; auto.
+  - rewrite andb_false_r; reflexivity.
+  - destruct (g_titratable (init_group l g)) eqn:H; [apply init_group_lowers in H; congruence | reflexivity].
+Qed.
+(* whatever happens to a group whose atom is bridged when the group is created: it is never titratable *)
+Lemma bridged_never_titratable {E} (ops : list flag_op) (st : flag_state E) :
+  fst st = true -> g_titratable (snd st) = false ->
+  fst (flag_run st ops) = true /\ g_titratable (snd (flag_run st ops)) = false.
+Proof.
+  unfold flag_run. revert st. induction ops as [|o ops IH]; cbn [fold_left]; intros st Hb Hg; [auto|].
+  apply IH; [apply flag_step_bridge_monotone | apply flag_step_keeps_untitrated]; assumption.
+Qed.
+Lemma bridged_from_init {E} k is_cys (env : E) ops :
+  g_titratable (snd (flag_run (flag_init k is_cys true env) ops)) = false.
+Proof. apply (bridged_never_titratable ops (flag_init k is_cys true env)); reflexivity. Qed.
+(* the pipeline of a free group: setup, then the restriction *)
+Lemma free_group_flags {E} k is_cys (env : E) mps o :
+  g_titratable (snd (flag_run (flag_init k is_cys false env) [OpSetup mps; OpRestrict o])) =
+  mps && match o with None => true | Some l => key_mem k l end.
+Proof.
+  cbn. destruct o as [l|]; cbn [init_group g_key]; [|rewrite !andb_true_r; reflexivity].
+  destruct (key_mem k l); cbn; rewrite ?andb_true_r, ?andb_false_r; reflexivity.
+Qed.
+(* a bridged cysteine stays in the results unless the restriction excludes it, exactly as a free one *)
+Lemma bridged_cys_reported {E} k (env : E) mps o :
+  use_in_calculations (snd (flag_run (flag_init k true true env) [OpSetup mps; OpRestrict o])) =
+  match o with None => true | Some l => key_mem k l end.
+Proof.
+  cbn. rewrite andb_false_r. destruct o as [l|]; cbn [init_group g_key]; [|reflexivity].
+  destruct (key_mem k l); reflexivity.
+Qed.
